@@ -474,6 +474,49 @@ func (e *Engine) apply(i int, op Op) *Fail {
 			}
 			return nil
 		}
+		if op.Name != "" {
+			// a target addressed by name: in the live chain, or cut out of it by an earlier revert
+			d := snapDisk(op.Name)
+			if idx := m.InChain(d); idx >= 1 {
+				op.Sel, op.On = idx-1, false
+			} else if _, ok := m.OrphanSnaps[d]; ok {
+				names := []string{}
+				for o := range m.OrphanSnaps {
+					names = append(names, o)
+				}
+				sort.Strings(names)
+				op.Sel, op.On = sort.SearchStrings(names, d), true
+			} else {
+				return nil
+			}
+		}
+		if op.On && !m.PunchEver && len(m.OrphanSnaps) > 0 {
+			// a snapshot that an earlier revert cut out of the live chain: its files are
+			// still there and the product accepts it as a revert target
+			var names []string
+			for d := range m.OrphanSnaps {
+				names = append(names, d)
+			}
+			sort.Strings(names)
+			sel := op.Sel
+			if sel < 0 {
+				sel = -sel
+			}
+			d := names[sel%len(names)]
+			if _, ok := m.OrphanAncestry(d); ok {
+				err := s.Revert(d, fmt.Sprintf("T%04d", i))
+				e.tracef("revert (orphan) %s -> %v", d, err)
+				e.fixDrainer()
+				if err != nil {
+					return fail("revert|orphan|refused", fmt.Sprintf("revert to %s (cut out of the live chain by an earlier revert, files intact) failed: %v", d, err), "C06", "C12", "C16")
+				}
+				m.RevertOrphan(d)
+				e.Created[m.Head()] = fmt.Sprintf("T%04d", i)
+				e.Labels["revert:ok"]++
+				e.Labels["revert:to-orphan"]++
+				return nil
+			}
+		}
 		sn := e.chainSnap(op.Sel)
 		if sn == nil {
 			return nil
@@ -676,6 +719,14 @@ func (e *Engine) removeViaCleaner(op Op) *Fail {
 	if !m.Open || s.Replica() == nil {
 		return nil
 	}
+	for _, d := range m.Chain {
+		if m.Short[d] {
+			// a snapshot shorter than its parent cannot be folded (sparse.FoldFile
+			// refuses): removals in such a chain are not exercised (DESIGN 7.3)
+			e.Labels["remove:skipped-short-file-in-chain"]++
+			return nil
+		}
+	}
 	cands, err := jsync.GetDeleteCandidateChain(s.Replica(), m.Checkpoint)
 	if err != nil {
 		return fail("candidates|error", err.Error(), "C11")
@@ -835,7 +886,9 @@ func (e *Engine) verifyChain() *Fail {
 			}
 		}
 		st, err := os.Stat(filepath.Join(e.Dir, d))
-		if err == nil && st.Size() != m.Size {
+		if err == nil && m.Short[d] && m.InChain(d) >= 0 && st.Size() < m.Size {
+			e.Labels["chain:short-file-of-revived-snapshot"]++
+		} else if err == nil && st.Size() != m.Size {
 			return fail("chain|file-size", fmt.Sprintf("%s has length %d, volume size %d", d, st.Size(), m.Size), "C16")
 		}
 	}
